@@ -111,6 +111,9 @@ func c16CheckList(w *mon.W, keys []string) bool {
 	if len(keys) == 1 {
 		w.Bucket("fd/single-key-list")
 	}
+	if len(got) > 0 && !retainCheck(w, "FirstDiffBits", "sigbits.FirstDiffBits", func() uint64 { return hashI32(got) }) {
+		return false
+	}
 	w.Eval(int64(len(got)) + 1)
 	return true
 }
